@@ -45,6 +45,12 @@ Definition base_static_shared (b : wbase) : bool :=
 Definition site_static_ok (s : site_decl) : bool :=
   s_import s || negb (base_static_shared (s_base s)) || negb (pat_refuted (s_pat s)).
 
+(* a keyed memo store `C[key] = value` into a container that outlives the call: does the source give away that the value
+   is a function of the key?  (names: what the value is computed from is named by the key or is the owner of the container;
+   pure: the key uses no identity / rendering - id, repr, str, hash) *)
+Record memo_key := mkMemoKey { mk_line : N; mk_names_ok : bool; mk_key_pure : bool }.
+Definition memo_key_ok (m : memo_key) : bool := mk_names_ok m && mk_key_pure m.
+
 Definition pattern_eqb (a b : pattern) : bool :=
   match a, b with
   | PCheckThenAct, PCheckThenAct | PIdemStore, PIdemStore | PAugmented, PAugmented | PRmw, PRmw
